@@ -17,6 +17,7 @@ Everything else of the encoder is Go's `encoding/json` on structs (modelled, tie
 -/
 import SpecModel.Codec.SortLemmas
 import SpecModel.Codec.SideConditions
+import SpecModel.Codec.NoDup
 
 namespace SpecModel.Props.C06
 open SpecModel SpecModel.Codec
@@ -64,6 +65,28 @@ example : (toGoMap [("b", .num 1), ("a", .num 2), ("b", .num 3)]).map (·.1) = [
 
 /-- Free-form payloads are printed in Go's normal form: every object inside has strictly increasing keys. -/
 theorem payload_no_duplicate_member {j j' : Json} (h : normAny j = .ok j') : GoAny j' := normAny_goAny j j' h
+
+/-! ### Whole documents: no member name twice, at any depth
+
+`norm K` is the model of "decode as kind K, then encode" for all seventeen kinds (tied to the Go codecs by the
+`norm` correspondence).  The theorem is proved once for any tables satisfying `TablesOK`; `tables_ok` discharges
+`TablesOK` for the tables REGENERATED from /repo on this run (`decide`): member names of every struct table
+pairwise distinct; for every kind, the names of all parts its MarshalJSON concatenates pairwise distinct, none
+of them an `x-` name, at most one extensions part; the same for the hand-written kinds (schema, response,
+security scheme).  A source change that makes two parts of a kind emit the same member breaks `tables_ok`. -/
+
+theorem tables_ok : TablesOK := ⟨by decide, by decide, by decide⟩
+
+/-- **Every encoding of a decoded value is collision-free**: whatever `norm K j` returns has no object, at any
+depth, carrying the same member name twice. -/
+theorem encoding_has_no_duplicate_member (k : String) (j j' : Json) (h : norm k j = .ok j') : ND j' :=
+  norm_nd tables_ok k j j' h
+
+/-- `ND` says what it should on a small example, and is not trivially true -/
+example : ND (.obj [("a", .arr [.obj [("x", .null), ("y", .null)]]), ("b", .num 1)]) := by
+  simp [ND, NDL, NDM]
+example : ¬ ND (.obj [("a", .obj [("x", .null), ("x", .null)])]) := by
+  simp [ND, NDM]
 
 /-! ### Side conditions on the regenerated tables -/
 
